@@ -194,6 +194,39 @@ def h_web_roundtrip(value: str) -> bool:
     return run(body_web_roundtrip, value)
 
 
+# ------------------------------------------------------------------ a menu of awkward but legal values
+VALUE_MENU = ["a  b", "a\tb", "a\u00a0b", "a\nb", "[x]", "a=b", "a: b", "#c", "c #d", "%(x)s", "\\", "\\n", '"q"',
+              "a\x0bb", "A" * 80, "1", "None", "\u00e9\u4e2d\U0001f382", "<a&b>", "--", "'"]
+
+
+def body_web_menu(i):
+    """The same round trip for values that only matter as whole patterns (runs of blanks, a tab, a line feed, a
+    non-breaking space, section-header / comment / interpolation look-alikes, backslashes, quotes, long and
+    astral text): index chosen by the solver, one path per entry (exhaustive over the menu)."""
+    from xv.core import pick
+    i = pick(i, len(VALUE_MENU))
+    try:
+        from crosshair.tracers import NoTracing
+    except ImportError:
+        import contextlib
+        NoTracing = contextlib.nullcontext
+    with NoTracing():
+        saved = globals()["value_ok"]
+        globals()["value_ok"] = lambda v, b: True
+        try:
+            return body_web_roundtrip(VALUE_MENU[i])
+        finally:
+            globals()["value_ok"] = saved
+
+
+def h_web_menu(i: int) -> bool:
+    """
+    pre: 0 <= i < len(VALUE_MENU)
+    post: _
+    """
+    return run(body_web_menu, i)
+
+
 CAL2 = "/user/calendars/cal2"
 VALS = ["Home", "Work"]
 COLS = ["#00ff00", "#0000ff80"]
@@ -277,6 +310,16 @@ HARNESSES = [
                      "xandikos.webdav.CommentProperty.set_value",
                      "xandikos.carddav.AddressbookDescriptionProperty.set_value",
                      "xandikos.web.StoreBasedCollection.set_displayname"]),
+    Harness("web_menu", h_web_menu, body_web_menu, classes=[("roundtrip", ("git", "displayname"))],
+            parts={"quick": _WEB_PARTS_Q}, bounds=_B, budget={"quick": 60, "thorough": 120},
+            describe="the PROPPATCH / PROPFIND / restart round trip for a menu of %d awkward whole-pattern values (runs "
+                     "of blanks, tab, line feed, NBSP, '[x]', '#c', '%%(x)s', backslashes, quotes, 80 characters, astral "
+                     "text), every entry (exhaustive over the menu); part = (metadata back end, property)" % len(VALUE_MENU),
+            encodes=["xandikos.webdav.ProppatchMethod.handle", "xandikos.webdav.apply_modify_prop",
+                     "xandikos.webdav.DisplayNameProperty.set_value", "xandikos.webdav.CommentProperty.set_value",
+                     "xandikos.carddav.AddressbookDescriptionProperty.set_value",
+                     "xandikos.store.config.FileBasedCollectionMetadata._save",
+                     "xandikos.store.git.RepoCollectionMetadata._write_config"]),
     Harness("history", h_history, body_history, classes=["history:3", "history:1"], bounds=_B,
             budget={"quick": 100, "thorough": 600},
             describe="symbolic history of <= 3/4 set / remove steps (displayname, colour; two values each) over two "
